@@ -267,17 +267,24 @@ func tdTopK(start int64, init []int, hist []edit, tip, t int64) ([]int, bool) {
 	return init, true
 }
 
-// tdpos: the proposers of a term are the top-K recorded 3 blocks before the first block of the term.
+// tdpos: the proposers of a term are fixed when the term opens: its first block F is produced (CompeteMaster) and
+// admitted (CalOldProposers for a block above the tip) under the top-K of the snapshot of block tip-3 = F-4, and that
+// set stays in force for every view of the term.
+func tdTermSet(start int64, init []int, hist []edit, terms []int64, h int64) ([]int, bool) {
+	tip := int64(len(terms) - 1)
+	return tdTopK(start, init, hist, tip, tdFirstOfTerm(terms, start, h)-1)
+}
+
 func tdInForce(start int64, init []int, hist []edit, terms []int64, height, inputTerm, bits int64) ([]int, bool) {
 	tip := int64(len(terms) - 1)
 	if height < start+3 {
 		return init, true
 	}
 	if height < tip {
-		return tdTopK(start, init, hist, tip, tdFirstOfTerm(terms, start, height))
+		return tdTermSet(start, init, hist, terms, height)
 	}
 	if terms[tip] == inputTerm {
-		return tdTopK(start, init, hist, tip, tdFirstOfTerm(terms, start, tip))
+		return tdTermSet(start, init, hist, terms, tip)
 	}
 	t := tip
 	if bits != 0 {
